@@ -313,8 +313,7 @@ theorem toKoto_ne_null (X : Ext) (t : Ty) (x : RVal) (hn : nullable t = false)
 
 
 theorem fromInt_i (X : Ext) (k : IntK) (a : Int64) : fromInt X k (.i a) =
-    if k.wide then (if k.lo ≤ a.toInt then some (.int a.toInt) else none)
-    else some (.int (clamp k.lo k.hi a.toInt)) := rfl
+    if k.lo ≤ a.toInt ∧ a.toInt ≤ k.hi then some (.int a.toInt) else none := rfl
 
 theorem rt_int (X : Ext) (k : IntK) (n : Int) (v : Val) (h1 : k.lo ≤ n) (h2 : n ≤ k.hi)
     (hk : toKoto X (.int n) = some v) : fromKoto X (.int k) v = some (.int n) := by
@@ -328,10 +327,7 @@ theorem rt_int (X : Ext) (k : IntK) (n : Int) (v : Val) (h1 : k.lo ≤ n) (h2 : 
   have hr : (Int64.ofInt n).toInt = n := Int64.toInt_ofInt_of_le (by omega) (by omega)
   simp only [fromKoto]
   rw [fromInt_i, hr]
-  cases k <;> simp only [IntK.wide, IntK.lo, IntK.hi, i64Min, i64Max, clamp] at h1 h2 ⊢ <;>
-    first
-      | (simp [h1]; done)
-      | (simp; omega)
+  simp [h1, h2]
 
 theorem hasTyFields_names : ∀ (fs : List (Name × Ty)) (xs : List (Name × RVal)),
     hasTyFields fs xs = true → names fs = names xs
